@@ -582,28 +582,63 @@ func (prop) Run(x *core.Ctx) {
 			// general flapping: judge only the events that were emitted. The reference is
 			// re-run with lastTriggered driven by what was actually emitted (an event that
 			// flap detection suppressed does not count as "the last alert").
-			st2 := &refState{}
+			// What flap detection suppressed is not observable. That matters for lastTriggered:
+			// a recovery withheld by noRecoveries counts as "the last alert", one suppressed by
+			// flap detection does not - both are silent. The reference therefore carries every
+			// state that is consistent with what was observed so far.
+			cands := []refState{{}}
 			gi := 0
-			for i := 0; i < L && gi <= len(got); i++ {
+			for i := 0; i < L && gi <= len(got) && len(cands) > 0; i++ {
 				l := lvlOf(perStep[i])
-				prev := *st2
-				ev := c.step(st2, l, stepTimes[i], stepAlts[i])
 				var g *alert.Event
 				if gi < len(got) && (got[gi].State.Time.Equal(stepTimes[i]) || inTimes(stepAlts[i], got[gi].State.Time)) {
 					g = &got[gi]
 					gi++
 				}
-				switch {
-				case g != nil && ev == nil:
-					fail("alert-extra-event", "under flapping: event %v at %v, but the state machine forbids an event at this step (level %v, previous %v, last alert at %v)", g.State.Level, g.State.Time.Sub(base), l, prev.cur, prev.lastTriggered.Sub(base))
-				case g != nil && ev != nil:
-					if g.State.Level != ev.Level || g.State.Duration != ev.Duration {
-						fail("alert-event-mismatch", "under flapping: event at %v has level %v duration %v, reference level %v duration %v", g.State.Time.Sub(base), g.State.Level, g.State.Duration, ev.Level, ev.Duration)
+				var next []refState
+				mismatch := ""
+				add := func(st refState) {
+					for _, o := range next {
+						if o.cur == st.cur && o.leftOK.Equal(st.leftOK) && o.lastTriggered.Equal(st.lastTriggered) {
+							return
+						}
 					}
-				case g == nil && ev != nil:
-					// suppressed by flap detection (cannot be judged): it did not count as an alert
-					st2.lastTriggered = prev.lastTriggered
+					next = append(next, st)
 				}
+				for _, prev := range cands {
+					st2 := prev
+					ev := c.step(&st2, l, stepTimes[i], stepAlts[i])
+					switch {
+					case g != nil && ev == nil:
+						// this candidate forbids the event
+					case g != nil && ev != nil:
+						if g.State.Level != ev.Level || g.State.Duration != ev.Duration {
+							mismatch = fmt.Sprintf("event at %v has level %v duration %v, reference level %v duration %v", g.State.Time.Sub(base), g.State.Level, g.State.Duration, ev.Level, ev.Duration)
+						} else {
+							add(st2)
+						}
+					case g == nil && ev != nil:
+						// suppressed by flap detection (cannot be judged): it did not count as an alert
+						st2.lastTriggered = prev.lastTriggered
+						add(st2)
+					default:
+						add(st2)
+						if !st2.lastTriggered.Equal(prev.lastTriggered) {
+							// a withheld recovery: flap detection may have suppressed it instead
+							alt := st2
+							alt.lastTriggered = prev.lastTriggered
+							add(alt)
+						}
+					}
+				}
+				if len(next) == 0 {
+					if mismatch != "" {
+						fail("alert-event-mismatch", "under flapping: %s", mismatch)
+					} else if g != nil {
+						fail("alert-extra-event", "under flapping: event %v at %v, but the state machine forbids an event at this step (level %v, previous %v, last alert at %v)", g.State.Level, g.State.Time.Sub(base), l, cands[0].cur, cands[0].lastTriggered.Sub(base))
+					}
+				}
+				cands = next
 			}
 			if gi < len(got) {
 				fail("alert-extra-event", "under flapping: event %v at %v does not correspond to any step", got[gi].State.Level, got[gi].State.Time.Sub(base))
